@@ -210,7 +210,7 @@ CaseResult evaluate_once(const Raw& raw, unsigned libTimeout)
 	if (!finished) {
 		if (WIFSIGNALED(status) && WTERMSIG(status) == SIGALRM) {
 			if (inLib) { res.timeout = true; res.incon.push_back("timeout:" + phase); }
-			else { res.st = CaseResult::ERROR; res.incon.push_back("oracle-timeout after " + phase); return res; }
+			else { res.incon.push_back("oracle-timeout after " + phase); }
 		}
 		else if (WIFSIGNALED(status) && WTERMSIG(status) == SIGKILL) {
 			res.incon.push_back("killed:" + phase);
@@ -417,7 +417,7 @@ int main(int argc, char** argv)
 {
 	std::string mode = "run", out, replayFile, corpusDir, expectSig;
 	uint64_t seed = 1;
-	int cases = 100, size = 30, rounds = 3, minSize = 6;
+	int cases = 100, size = 30, rounds = 3, minSize = 8;
 	for (int i = 1; i < argc; ++i) {
 		std::string a = argv[i];
 		auto val = [&]() -> std::string { return (i + 1 < argc) ? argv[++i] : ""; };
@@ -429,7 +429,7 @@ int main(int argc, char** argv)
 		else if (a == "--cases") cases = atoi(val().c_str());
 		else if (a == "--size") size = atoi(val().c_str());
 		else if (a == "--rounds") rounds = atoi(val().c_str());
-		else if (a == "--min-size") minSize = atoi(val().c_str());
+		else if (a == "--min-records") minSize = atoi(val().c_str());
 		else if (a == "--worker") g_worker = atoi(val().c_str());
 		else if (a == "--tier") opt().tier = (val() == "thorough") ? 1 : 0;
 		else if (a == "--sanitizer-only") opt().sanitizer_only = true;
@@ -519,11 +519,14 @@ int main(int argc, char** argv)
 			long shrinkEvals = 0;
 			long doneThisRound = 0;
 
-			auto elem = rc::gen::inRange<uint32_t>(0u, 65536u);
+			// values are uniform 16-bit (inRange scales with size: pin it), the number
+			// of records is minRecords + U[0, size]; only the variable tail shrinks by removal
+			auto elem = rc::gen::resize(100, rc::gen::inRange<uint32_t>(0u, 65536u));
 			auto rec = rc::gen::container<Rec>(elem);
-			auto gen0 = rc::gen::container<Raw>(rec);
-			const int minSz = minSize;
-			auto gen = rc::gen::withSize([gen0, minSz](int sz) { return rc::gen::resize(std::max(sz, minSz), gen0); });
+			auto fixedPart = rc::gen::container<Raw>(static_cast<std::size_t>(minSize), rec);
+			auto tailPart = rc::gen::container<Raw>(rec);
+			auto gen = rc::gen::apply([](Raw a, const Raw& b) { a.insert(a.end(), b.begin(), b.end()); return a; },
+				fixedPart, tailPart);
 
 			auto property = [&]() {
 				Raw raw = *gen;
@@ -551,6 +554,10 @@ int main(int argc, char** argv)
 				CaseResult r = evaluate(raw, true);
 				st.add(r);
 				++doneThisRound;
+				if (r.timeout && st.timeouts <= 2) {
+					// keep a sample of what was inconclusive
+					write_replay(raw, "timeout-sample:" + (r.incon.empty() ? std::string() : r.incon[0]), "inconclusive (slow)", r.text, "");
+				}
 				if (r.st == CaseResult::ERROR) {
 					if (st.errors.size() < 5) st.errors.push_back(r.incon.empty() ? "error" : r.incon[0]);
 					return;
